@@ -7,8 +7,16 @@ import (
 	"strings"
 )
 
+// repoDir is /repo for every registered check; VERIF_REPO points the machinery at a scratch copy (used only while
+// developing, to try seeded changes without touching /repo).
+var repoDir = func() string {
+	if d := os.Getenv("VERIF_REPO"); d != "" {
+		return d
+	}
+	return "/repo"
+}()
+
 const (
-	repoDir    = "/repo"
 	verifDir   = "/verif"
 	harnessDir = "/verif/harness"
 	modPath    = "github.com/ddddddO/gtree"
